@@ -188,8 +188,8 @@ def run(ck):
                 final_else = nxt
                 nxt = None
             cur = nxt
-        ck.ob('R19.2', 'chain-length', len(chain) == 4 and final_else is not None, L.loc(fs['body']), '%d tests + final else' % len(chain))
-        if len(chain) == 4 and final_else is not None:
+        ck.ob('R19.2', 'chain-length', len(chain) >= 2 and final_else is not None, L.loc(fs['body']), '%d tests + final else (`#`, `transparent`, keyword lookup(s))' % len(chain))
+        if len(chain) >= 2 and final_else is not None:
             # 1. '#' => hex only
             c0 = chain[0]['c']
             sp = next((x for x in H.calls_in(c0) if x.get('m') == 'strip_prefix'), None)
@@ -208,21 +208,57 @@ def run(ck):
             tv = [x for v in H.value_exprs(chain[1]['then']) for x in H.calls_in(v) if (H.callee_decl(x) or '').endswith('Color::rgba8')]
             ok = len(tv) == 1 and [H.lit_value(a) for a in tv[0]['args']] == [0, 0, 0, 0]
             ck.ob('R19.2', 'transparent-is-rgba-0000', ok, L.loc(chain[1]), 'transparent => rgba8(0, 0, 0, 0)')
-            # 3./4. keyword lookups
+            # 3.. keyword lookups: directly on the table, or through a helper that does nothing but ask the table
+            def key_kind(f_, arg, phid):
+                inner = [x.get('m') for x in H.calls_in(arg)]
+                rl = H.root_local(arg)
+                if (rl or {}).get('hid') == phid and not [m for m in inner if m not in ('as_str', 'as_ref', 'to_ascii_lowercase', 'borrow')]:
+                    return 'ascii-lower' if 'to_ascii_lowercase' in inner else 'exact'
+                return 'transformed:%s' % (inner or pp(arg, maxlen=30))
+
+            def table_get(x):
+                x = H.strip_refs(x)
+                while x.get('k') == 'MCall' and x.get('m') in ('copied', 'cloned'):
+                    x = H.strip_refs(x['recv'])
+                return x if x.get('k') == 'MCall' and x.get('m') == 'get' and 'SVG_NAMED_COLORS' in pp(x['recv']) and x['args'] else None
+            def lookup_kinds(f_, x, phid, depth=0):
+                """which keys the table is asked for by the Option-valued expression x; 'not-understood:..' for anything else."""
+                x = H.strip_refs(x)
+                while x.get('k') == 'Block' and not x.get('stmts') and 'e' in x:
+                    x = H.strip_refs(x['e'])
+                g = table_get(x)
+                if g is not None:
+                    return [key_kind(f_, g['args'][0], phid)]
+                if x.get('k') == 'MCall' and x.get('m') in ('map', 'copied', 'cloned', 'ok_or', 'ok_or_else'):
+                    return lookup_kinds(f_, x['recv'], phid, depth + 1)
+                if x.get('k') == 'MCall' and x.get('m') == 'or_else' and x['args'] and x['args'][0].get('k') == 'Closure':
+                    return lookup_kinds(f_, x['recv'], phid, depth + 1) + [k_ for v in H.return_exprs(x['args'][0]['body']) for k_ in lookup_kinds(f_, v, phid, depth + 1)]
+                if x.get('k') == 'MCall' and x.get('m') == 'or' and x['args']:
+                    return lookup_kinds(f_, x['recv'], phid, depth + 1) + lookup_kinds(f_, x['args'][0], phid, depth + 1)
+                if x.get('k') == 'Call' and (x.get('def') or '').endswith('Option::Some') and len(x['args']) == 1:
+                    srcs = [table_get(o) for o in H.origins(f_, x['args'][0])]
+                    if srcs and all(o is not None for o in srcs):
+                        return [key_kind(f_, o['args'][0], phid) for o in srcs]
+                if x.get('k') == 'Call' and depth < 3:
+                    hf = L.fn(H.callee(x) or H.callee_decl(x) or '?')
+                    if hf is not None and hf.get('body') is not None and len(x['args']) == 1 and (H.root_local(x['args'][0]) or {}).get('hid') == phid and H.strip_refs(x['args'][0]).get('k') == 'Path':
+                        ck.analysed(hf['path'])
+                        hp = next((b['hid'] for b in H.pat_bindings(hf['params'][0])), None)
+                        hk = [k_ for rv in H.return_exprs(hf['body']) for k_ in lookup_kinds(hf, rv, hp, depth + 1)]
+                        tries = [t for t in walk(hf['body']) if t.get('k') == 'Try']
+                        if tries:
+                            hk.append('gives-up-early:%s' % pp(tries[0], maxlen=50))
+                        return hk
+                return ['not-understood:%s' % pp(x, maxlen=60)]
             kinds = []
-            for i in (2, 3):
+            fvals = [v for v in H.value_exprs(final_else)]
+            if len(chain) == 2 and len(fvals) == 1 and H.strip_refs(fvals[0]).get('k') == 'MCall' and H.strip_refs(fvals[0]).get('m') in ('ok_or', 'ok_or_else'):
+                # `else { <lookup>.map(Color::Rgb8).ok_or(UnknownName) }`
+                kinds.extend(lookup_kinds(fs, fvals[0], param_hid))
+            for i in range(2, len(chain)):
                 c = chain[i]['c']
-                g = next((x for x in H.calls_in(c) if x.get('m') == 'get'), None)
-                kind = 'none'
-                if g is not None and 'SVG_NAMED_COLORS' in pp(g['recv']):
-                    arg = g['args'][0]
-                    inner = [x.get('m') for x in H.calls_in(arg)]
-                    rl = H.root_local(arg)
-                    if (rl or {}).get('hid') == param_hid and not [m for m in inner if m not in ('as_str', 'as_ref', 'to_ascii_lowercase', 'borrow')]:
-                        kind = 'ascii-lower' if 'to_ascii_lowercase' in inner else 'exact'
-                    else:
-                        kind = 'transformed:%s' % inner
-                kinds.append(kind)
+                e_ = c.get('e') if c.get('k') == 'LetCond' else c
+                kinds.extend(lookup_kinds(fs, e_, param_hid))
                 # result is Ok(Color::Rgb8(bound value))
                 pb = {b['hid'] for b in H.pat_bindings(c['pat'])} if c.get('k') == 'LetCond' else set()
                 tv = list(H.value_exprs(chain[i]['then']))
@@ -230,10 +266,14 @@ def run(ck):
                     H.strip_refs(tv[0]['args'][0]).get('k') == 'Call' and (H.strip_refs(tv[0]['args'][0]).get('def') or '').endswith('Color::Rgb8') and \
                     (H.root_local(H.strip_refs(tv[0]['args'][0])['args'][0]) or {}).get('hid') in pb
                 ck.ob('R19.2', 'keyword-result|%d' % (i - 1), okv, L.loc(chain[i]), 'Ok(Color::Rgb8(<looked-up row>))')
-            ck.ob('R19.2', 'keyword-lookups', sorted(kinds) == ['ascii-lower', 'exact'] or kinds == ['ascii-lower', 'ascii-lower'], L.loc(chain[2]),
-                  'lookups on: %s (only the string itself and its ASCII lower-casing may be looked up)' % kinds)
+            okk = bool(kinds) and set(kinds) <= {'ascii-lower', 'exact'} and 'ascii-lower' in kinds
+            ck.ob('R19.2', 'keyword-lookups', okk, L.loc(chain[2] if len(chain) > 2 else final_else),
+                  'the table is asked for: %s (the string itself and its ASCII lower-casing)' % kinds if okk else
+                  'keyword lookups: %s — only `SVG_NAMED_COLORS.get(src)` and `.get(src.to_ascii_lowercase())` are understood; anything else (another key, a '
+                  'hand-written search, an early "not a keyword") can accept a non-keyword or refuse a keyword in some letter case' % kinds)
             fv = list(H.value_exprs(final_else))
-            ok = len(fv) == 1 and fv[0].get('k') == 'Call' and (fv[0].get('def') or '').endswith('Result::Err')
+            ok = len(fv) == 1 and ((fv[0].get('k') == 'Call' and (fv[0].get('def') or '').endswith('Result::Err')) or
+                                   (H.strip_refs(fv[0]).get('k') == 'MCall' and H.strip_refs(fv[0]).get('m') in ('ok_or', 'ok_or_else') and 'ParseColorError' in pp(H.strip_refs(fv[0])['args'][0], maxlen=80)))
             ck.ob('R19.2', 'otherwise-error', ok, L.loc(final_else), 'final else yields Err')
     # call site: the string is parsed untransformed
     pc = L.fn('uigen::expr::parse_color_value')
